@@ -6,7 +6,8 @@ from nvsa import cast
 from nvsa.report import AnalysisError
 
 from ._c14_c import View, _calls, _tail_shape, byte_assembly, byte_table, rmw_core
-from ._c14_common import LITERAL_BITS, alpha_print, flat, is_int, is_min, name_width, res, return_type, then_returns, times8, type_bytes, upper_bound
+from ._c14_common import (LITERAL_BITS, alpha_print, flat, is_int, is_min, name_width, res, return_type, then_returns, times8, type_bytes, upper_bound,
+                          zero_fill_guard_ok)
 
 THIS = ("this",)
 DATA_SIZE = ("mcall", ("ref", "data_"), "size", ())
@@ -179,10 +180,13 @@ def rule_get(ms, clamp_present: bool) -> typing.List[dict]:
                             out.append(res(RW, k, f"{k}: saturation constant, return type and name agree on the width", ok,
                                            f"name says {W}, saturation constant is {ub}, return type {return_type(fn)}"))
                     else:
-                        pre = [c2 for s2, t2 in v.terms() if s2.top < s.top for c2 in _calls(t2) if c2[1] == "memset" and is_int(c2[2][1], 0)]
+                        pre_s = [(s2, c2) for s2, t2 in v.terms() if s2.top < s.top for c2 in _calls(t2) if c2[1] == "memset" and is_int(c2[2][1], 0)]
+                        pre = [c2 for _s2, c2 in pre_s]
                         ok = bool(pre)
                         detail = "no memset of the output tail before the copy"
                         if ok:
+                            gok, gdetail = zero_fill_guard_ok(pre_s[0][0].guards, pre[0][2][2], env)
+                            out.append(res(R, k, f"{k}: the zero fill of the output tail is not skipped while bytes remain to be cleared", gok, gdetail))
                             start, count = cast.substitute(pre[0][2][0], env), cast.substitute(pre[0][2][2], env)
                             frag = cast.show(("bin", "/", n, ("int", 8, "")))
                             ok = frag in cast.show(start) and frag in cast.show(count) and "len_bits" in cast.show(count)
